@@ -42,6 +42,15 @@ theorem advance_terminates (k m : Nat) (hk : 1 ≤ k) (hm : m < 2^52) (s : HandI
     (∀ a ∈ s.next :: skipArgs (fun y => y &&& s.mask == 0) SKIP_FUEL (permute s.next), 0 < a ∧ a < 2^53) :=
   advance_spec k m hk hm s hs hne
 
+/-- **init_terminates**: the skip loop of `From<(usize, Hand)>` (`1 ≤ k < 64`, any blocking hand)
+stops before its fuel is used up; the iterator then stands on the least `k`-card word avoiding the
+effective mask, or is exhausted (`next ≥ 2^52`); every word handed to `permute` is in `(0, 2^63)`. -/
+theorem init_terminates (short : Bool) (k hand : Nat) (hk : 1 ≤ k) (hk64 : k < 64) :
+    HInv k (effMask short hand) (HandIter.init short k hand) ∧
+    (∀ y, popW 64 y = k → y &&& effMask short hand = 0 → (HandIter.init short k hand).next ≤ y) ∧
+    (∀ a ∈ skipArgs (initStop (effMask short hand)) SKIP_FUEL (2^k - 1), 0 < a ∧ a < 2^63) :=
+  init_spec short k hand hk hk64
+
 /-- every `permute` call of the construction and of every later `advance` receives a word on which
 no `u64` operation overflows or underflows -/
 theorem C06_reachable_no_overflow (a : Nat) (h : 0 < a ∧ a < 2^63) :
